@@ -24,6 +24,32 @@ theorem lemma_splitOn_append (sep : Char) (a b : List Char) (h : sep ∉ a) :
     have ha : sep ∉ a := fun e => h (by simp [e])
     simp [splitOn, hc, ih ha]
 
+theorem lemma_splitOn_ne_nil (sep : Char) (s : List Char) : splitOn sep s ≠ [] := by
+  induction s with
+  | nil => simp [splitOn]
+  | cons c cs ih =>
+    unfold splitOn
+    split
+    · simp
+    · split <;> simp
+
+/-- `sep in s` implies `s.split(sep)` has at least two parts (so `[1]` exists) -/
+theorem lemma_splitOn_two (sep : Char) (s : List Char) (h : sep ∈ s) :
+    ∃ a b rest, splitOn sep s = a :: b :: rest := by
+  induction s with
+  | nil => simp at h
+  | cons c cs ih =>
+    by_cases hc : c = sep
+    · rcases hs : splitOn sep cs with _ | ⟨b, rest⟩
+      · exact absurd hs (lemma_splitOn_ne_nil sep cs)
+      · exact ⟨[], b, rest, by simp [splitOn, hc, hs]⟩
+    · have hm : sep ∈ cs := by
+        rcases List.mem_cons.mp h with e | e
+        · exact absurd e.symm hc
+        · exact e
+      obtain ⟨a, b, rest, e⟩ := ih hm
+      exact ⟨c :: a, b, rest, by simp [splitOn, hc, e]⟩
+
 theorem lemma_rsplit1_none (sep : Char) (s : List Char) (h : sep ∉ s) : rsplit1 sep s = (s, none) := by
   induction s with
   | nil => rfl
@@ -294,6 +320,97 @@ theorem lemma_isValidIPv6_no_colon (h : List Char) (hno : ':' ∉ h) : isValidIP
       split
       · rfl
       · exact lemma_pton6_no_colon a (fun e => hno (hsub _ e))
+
+/-! ### an accepted IPv6 text never has exactly one colon -/
+
+theorem lemma_count_one_split (c : Char) (l : List Char) (h : l.count c = 1) :
+    ∃ x y, l = x ++ c :: y ∧ c ∉ x ∧ c ∉ y := by
+  induction l with
+  | nil => simp at h
+  | cons a l ih =>
+    by_cases ha : a = c
+    · subst ha
+      rw [List.count_cons_self] at h
+      have h0 : l.count a = 0 := by omega
+      exact ⟨[], l, rfl, by simp, List.count_eq_zero.mp h0⟩
+    · have hne : (a == c) = false := by simpa using ha
+      rw [List.count_cons, hne] at h
+      obtain ⟨x, y, e, hx, hy⟩ := ih (by simpa using h)
+      refine ⟨a :: x, y, by simp [e], ?_, hy⟩
+      intro hm; rcases List.mem_cons.mp hm with e' | e'
+      · exact ha e'.symm
+      · exact hx e'
+
+/-- reading a colon-free prefix of hex digits only advances the digit count -/
+theorem lemma_pton6Loop_hex_prefix (x y : List Char) :
+    ∀ (ct : List Char) (tp : Nat) (colon : Option Nat) (xd : Nat) r, ':' ∉ x →
+      (∀ c ∈ x ++ ':' :: y, c ∈ ct) → pton6Loop (x ++ ':' :: y) ct tp colon xd = some r →
+      pton6Loop (':' :: y) ct tp colon (xd + x.length) = some r := by
+  induction x with
+  | nil => intro ct tp colon xd r _ _ h; simpa using h
+  | cons ch xs ih =>
+    intro ct tp colon xd r hno hsub h
+    have hch : ch ≠ ':' := fun e => hno (by simp [e])
+    have hxs : ':' ∉ xs := fun e => hno (by simp [e])
+    have hsub' : ∀ c ∈ xs ++ ':' :: y, c ∈ ct := fun c hc => hsub c (by simp at hc ⊢; exact Or.inr hc)
+    rw [List.cons_append] at h
+    unfold pton6Loop at h
+    by_cases hh : isHex ch = true
+    · simp only [hh, if_true] at h
+      split at h
+      · exact absurd h (by simp)
+      · have := ih ct tp colon (xd + 1) r hxs hsub' h
+        rw [List.length_cons]
+        rw [show xd + (xs.length + 1) = xd + 1 + xs.length by omega]
+        exact this
+    · simp only [hh, Bool.false_eq_true, if_false, hch] at h
+      split at h
+      · next hdot =>
+        simp at hdot
+        have hall := lemma_pton4_chars ct hdot.2
+        have hm : ':' ∈ ct := hsub ':' (by simp)
+        rcases hall _ hm with hd | hd
+        · exact absurd hd (by decide)
+        · exact absurd hd (by decide)
+      · exact absurd h (by simp)
+
+theorem lemma_pton6_count_ne_one (s : List Char) (h : pton6 s = true) : s.count ':' ≠ 1 := by
+  intro hc
+  obtain ⟨x, y, e, hx, hy⟩ := lemma_count_one_split ':' s hc
+  subst e
+  cases x with
+  | nil =>
+    -- a leading ':' must be followed by another one
+    simp only [List.nil_append] at h
+    unfold pton6 at h
+    simp only [if_true] at h
+    cases y with
+    | nil => simp at h
+    | cons c2 y2 =>
+      have : c2 ≠ ':' := fun e => hy (by simp [e])
+      revert h; split <;> simp_all
+  | cons c xs =>
+    have hcne : c ≠ ':' := fun e => hx (by simp [e])
+    unfold pton6 at h
+    simp only [List.cons_append, hcne, if_false] at h
+    split at h
+    · exact absurd h (by simp)
+    · next tp colon xd hr =>
+      have hr' := lemma_pton6Loop_hex_prefix (c :: xs) y (c :: (xs ++ ':' :: y)) 0 none 0 _ hx
+        (fun _ hm => by simpa using hm) (by simpa using hr)
+      -- now at the single colon with at least one digit seen
+      unfold pton6Loop at hr'
+      have hcolon : isHex ':' = false := by decide
+      simp only [hcolon, Bool.false_eq_true, if_false, if_true, List.length_cons] at hr'
+      rw [if_neg (by omega)] at hr'
+      split at hr'
+      · exact absurd hr' (by simp)
+      · split at hr'
+        · exact absurd hr' (by simp)
+        · obtain ⟨rfl, ht⟩ := lemma_pton6Loop_no_colon _ _ _ _ _ _ _ _ hy hr'
+          rcases ht with rfl | ⟨rfl, rfl⟩
+          · by_cases hxd : xd > 0 <;> simp [hxd] at h
+          · simp at h
 
 /-! ### the dict model -/
 
